@@ -20,7 +20,11 @@ DPool == { xcom, <<88, DOT, 67, 79, 77>>, xcom \o <<DOT>>, xcom \o <<DOT, DOT>>,
            <<LBR, 49, COLON, 50, COLON, 51, COLON, 52, COLON, 53, COLON, 54, COLON, 55, COLON, 56, RBR>>,
            <<120, 110, HYPHEN, HYPHEN, 112, 49, 97, 105>>, <<97, DOT, 120, 110, HYPHEN, HYPHEN, 112, 49, 97, 105>>,
            <<97, USCORE, 98, DOT, 99, 111, 109>>, A(64) \o <<DOT>> \o S_com, A(63) \o <<DOT>> \o S_com,
-           <<97, DOT, 195, 169>>, <<SP, 120, DOT, 99, 111, 109>>, <<>>, <<DOT>>, <<97, DOT, 97, 97, 97>>, <<97, DOT, 97, 114, 112, 97>> }
+           <<97, DOT, 195, 169>>, <<SP, 120, DOT, 99, 111, 109>>,
+           \* the 253 / 254 / 255 boundaries of the whole name, with and without root dot
+           JoinWith(<<A(63), A(63), A(63), A(57), S_com>>, DOT), JoinWith(<<A(63), A(63), A(63), A(57), S_com>>, DOT) \o <<DOT>>,
+           JoinWith(<<A(63), A(63), A(63), A(58), S_com>>, DOT), JoinWith(<<A(63), A(63), A(63), A(58), S_com>>, DOT) \o <<DOT>>,
+           JoinWith(<<A(63), A(63), A(63), A(59), S_com>>, DOT), <<>>, <<DOT>>, <<97, DOT, 97, 97, 97>>, <<97, DOT, 97, 114, 112, 97>> }
 FamPool == { l \o <<AT>> \o d : l \in LPool, d \in DPool }
 FamLen  == UNION { { A(n) \o <<AT>> \o xcom,
                      <<DQ>> \o A(n - 2) \o <<DQ, AT>> \o xcom,
